@@ -200,7 +200,12 @@ fn run_concurrent(plan: &Plan, keep_trace: bool) -> (crate::simenv::SchedResult,
         threads: plan.threads.len(),
         seed: plan.seed,
         strategy: plan.strategy,
-        max_steps: 2_000 * n_ops + 50_000,
+        max_steps: 2_000 * n_ops
+            + 50_000
+            + match plan.strategy {
+                Strategy::Stall(e) => 3 * 10u64.pow(e as u32),
+                _ => 0,
+            },
         replay: plan.schedule.clone(),
         read_yield: plan.read_yield,
         keep_trace,
@@ -514,6 +519,7 @@ pub fn run_plan(plan: &Plan, keep_trace: bool) -> RunReport {
 
 pub fn generate(prop: &str, seed: u64, thorough: bool) -> Plan {
     let mut g = crate::gen::Gen::new(seed, &sim().image);
+    g.thorough = thorough;
     match prop {
         "C20" => g.plan_c20(seed, thorough),
         "C03" => g.plan_c03(seed, thorough),
